@@ -895,8 +895,12 @@ class IndexLevelGO(IndexLevel):
         for depth, k in enumerate(key):
             edge_nodes[depth] = node
             # only set on first encounter in descent
-            if depth_not_found == -1 and not node.index.__contains__(k):
-                depth_not_found = depth
+            if depth_not_found == -1:
+                if not node.index.__contains__(k):
+                    depth_not_found = depth
+                elif node.targets is not None and node.index._loc_to_iloc(k) != node.index.__len__() - 1:
+                    # descent always follows the last target: a label found elsewhere cannot be extended in tree order
+                    raise RuntimeError(f'invalid tree-form for IndexHierarchy: cannot append {key} as {k} is not the last label at depth {depth}')
             if node.targets is not None:
                 node = node.targets[-1]
 
